@@ -618,9 +618,11 @@ def _class_matrix(m: Any, r: random.Random, probes: Dict[str, int], viol: List[D
     classes = [c for c in vars(gm).values() if isinstance(c, type) and attrs.has(c)]
     twins: List[Tuple[Any, Any]] = []
     for a in list(per_class.values()):
-        content = readback(a)
-        if not isinstance(content, dict):
+        if type(a).__name__ == "LSPModel":
             continue
+        content = readback(a)
+        if not isinstance(content, dict) or len(repr(content)) > 4000:
+            continue  # twins only of small nodes: cost is |classes| deep copies per node
         for c in classes:
             if c is type(a) or len(twins) > 40:
                 continue
